@@ -293,3 +293,47 @@ def simulate_types(cfg):
     if not R and cls != "ConvBlock":
         pass
     return [(t, c) for t, c in out_sig if t in R]
+
+
+# --------------------------------------------------------------------------- save / load round trip (C13)
+
+
+def run_saveload(case):
+    cfg = case["cfg"]
+    d = cfg["d"]
+    labels = ["mode_saveload", "cls_" + cfg["cls"], f"d{d}", "equivariant" if cfg["equivariant"] else "conventional", "norm" if cfg["group_norm"] else "nonorm"]
+    key = ["saveload", cfg_key(cfg)]
+    if cfg["equivariant"] and simulate_types(cfg) is None:
+        return result(None, False, key, labels + ["architecture_not_evaluable_for_bank"])
+    saved = perturb(build_model(cfg, seed=cfg["seed"]), cfg["seed"] + 1, 0.3)
+    fresh = build_model(cfg, seed=cfg["seed"] + 12345)
+    wdir = os.path.join(VERIF_ROOT, ".work", "C13")
+    os.makedirs(wdir, exist_ok=True)
+    path = os.path.join(wdir, f"model_{os.getpid()}.eqx")
+    try:
+        ml.save(path, saved)
+        loaded = ml.load(path, fresh)
+    finally:
+        if os.path.exists(path):
+            os.remove(path)
+    x = to_mi(d, model_input(cfg, case["xseed"]), cfg["torus"])
+    o_saved = call_model(saved, x)
+    o_loaded = call_model(loaded, x)
+    o_fresh = call_model(fresh, x)
+    if o_saved.get_signature() != o_loaded.get_signature():
+        return result(viol("C13/saveload/signature", f"{o_saved.get_signature()} vs {o_loaded.get_signature()}"), True, key, labels)
+    differs = False
+    for t in o_saved.keys():
+        a, b, c = np.asarray(o_saved[t]), np.asarray(o_loaded[t]), np.asarray(o_fresh[t])
+        if not (a.shape == b.shape and np.array_equal(a, b, equal_nan=True)):
+            return result(viol("C13/saveload/outputs-differ", f"{cfg['cls']}: block {t} of the loaded model is not bit-identical to the saved model's"), True, key, labels)
+        differs = differs or not np.array_equal(a, c, equal_nan=True)
+    n_saved = len([l for l in jax.tree_util.tree_leaves(saved) if eqx.is_array(l)])
+    n_loaded = len([l for l in jax.tree_util.tree_leaves(loaded) if eqx.is_array(l)])
+    if n_saved != n_loaded:
+        return result(viol("C13/saveload/structure", f"{n_saved} vs {n_loaded} array leaves"), True, key, labels)
+    for la, lb in zip(jax.tree_util.tree_leaves(saved), jax.tree_util.tree_leaves(loaded)):
+        if eqx.is_array(la) and not np.array_equal(np.asarray(la), np.asarray(lb), equal_nan=True):
+            return result(viol("C13/saveload/leaf-differs", f"{cfg['cls']}: a parameter leaf of the loaded model differs from the saved one"), True, key, labels)
+    labels.append("fresh_model_differs" if differs else "fresh_model_same_output")
+    return result(None, differs, key, labels, evals=3)
